@@ -306,12 +306,17 @@ func hotspotModule() *module {
 		r := &R{ID: id, Res: res, Valid: true}
 		k := 1 + rng.Intn(8)
 		withItems := rng.Intn(2) == 0
-		uq := int64(10000 + uid) // semantic uniqueness (see flowModule)
+		// semantic uniqueness (see flowModule) through a specific item for a value the probes never use; NOT through
+		// ParamsMaxCapacity / DurationInSec, which decide whether the statistics of an old rule are re-used: with
+		// few distinct capacities a modified rule and a new rule of one load both qualify for the old statistics
+		uqKey := fmt.Sprintf("uq-%d", uid)
+		capacity := int64(vk.PickI(rng, 0, 0, 5000))
 		var mk func() *hotspot.Rule
 		base := func() *hotspot.Rule {
-			x := &hotspot.Rule{ID: id, Resource: res, MetricType: hotspot.Concurrency, ParamIndex: 0, Threshold: int64(k), ParamsMaxCapacity: uq}
+			x := &hotspot.Rule{ID: id, Resource: res, MetricType: hotspot.Concurrency, ParamIndex: 0, Threshold: int64(k), ParamsMaxCapacity: capacity}
+			x.SpecificItems = map[interface{}]int64{uqKey: 1000000}
 			if withItems {
-				x.SpecificItems = map[interface{}]int64{"other": 100}
+				x.SpecificItems["other"] = 100
 			}
 			return x
 		}
